@@ -246,6 +246,11 @@ Lemma st_handler_run o i h n nu now : pres Rst (handler_run o i h n nu now). Pro
 Global Hint Resolve st_handler_run : pres_st.
 Lemma st_run_all o n nu now : pres Rst (run_all o n nu now). Proof. prim run_all. Qed.
 Global Hint Resolve st_run_all : pres_st.
+Lemma st_add_on_update_handler n h : pres Rst (add_on_update_handler n h). Proof. prim add_on_update_handler. Qed.
+Lemma st_node_really_run n i h nu : pres Rst (node_really_run n i h nu). Proof. prim node_really_run. Qed.
+Global Hint Resolve st_add_on_update_handler st_node_really_run : pres_st.
+Lemma st_node_handler_run n i h nu now : pres Rst (node_handler_run n i h nu now). Proof. prim node_handler_run. Qed.
+Global Hint Resolve st_node_handler_run : pres_st.
 Lemma st_run_ouh n nu now : pres Rst (run_on_update_handlers n nu now). Proof. prim run_on_update_handlers. Qed.
 Global Hint Resolve st_run_ouh : pres_st.
 Lemma st_stabilise_loop fuel : pres Rst (stabilise_loop fuel).
